@@ -191,12 +191,25 @@ func ioCase(c *Ctx, kind, id, stack, setup, pathHex, payload, last string) {
 				out = "panic"
 			}
 		}()
-		switch kind {
-		case "wfile":
+		// every helper exists twice: package level, and as a method of afero.Afero; half of the cases
+		// (by the digest of the id) go through the method
+		viaMethod := fnvStr(id)%2 == 1
+		a := afero.Afero{Fs: fs}
+		if viaMethod {
+			c.Count(kind + ".via-method")
+		}
+		switch {
+		case kind == "wfile" && viaMethod:
+			werr = a.WriteFile(path, data, os.FileMode(atoi(last)))
+		case kind == "wfile":
 			werr = afero.WriteFile(fs, path, data, os.FileMode(atoi(last)))
-		case "wreader":
+		case kind == "wreader" && viaMethod:
+			werr = a.WriteReader(path, &chunkReader{chunksOf(data, last)})
+		case kind == "wreader":
 			werr = afero.WriteReader(fs, path, &chunkReader{chunksOf(data, last)})
-		case "swreader":
+		case kind == "swreader" && viaMethod:
+			werr = a.SafeWriteReader(path, &chunkReader{chunksOf(data, last)})
+		case kind == "swreader":
 			werr = afero.SafeWriteReader(fs, path, &chunkReader{chunksOf(data, last)})
 		}
 		return errRes(werr)
@@ -222,7 +235,11 @@ func ioCase(c *Ctx, kind, id, stack, setup, pathHex, payload, last string) {
 				out = "panic"
 			}
 		}()
-		got, rerr = afero.ReadFile(fs, path)
+		if fnvStr(id)%4 >= 2 {
+			got, rerr = afero.Afero{Fs: fs}.ReadFile(path)
+		} else {
+			got, rerr = afero.ReadFile(fs, path)
+		}
 		if rerr != nil && got == nil {
 			return "err:" + errClass(rerr)
 		}
@@ -371,4 +388,13 @@ func genC17b(c *Ctx) {
 		ioCase(c, kind, id("r"), st, setup, hp(Pick(r, names)), payload(size), last)
 	}
 	c.Extra["c17b_grid"] = fmt.Sprintf("stacks %v x sizes %v x {wfile,wreader,swreader} x {parent present, parent missing, path pre-existing}", ioStacks, c17bSizes)
+}
+
+func fnvStr(s string) uint32 {
+	h := uint32(2166136261)
+	for i := 0; i < len(s); i++ {
+		h ^= uint32(s[i])
+		h *= 16777619
+	}
+	return h
 }
